@@ -37,6 +37,10 @@ type C11Plan struct {
 	// message Pre.M) died at the chosen point; what that left behind is part of
 	// the contents the operation under test starts from.
 	Pre *C11Pre `json:"pre,omitempty"`
+	// TmpOtherFS: the system's temporary directory (/tmp) is a file system of
+	// its own (tmpfs), the mailbox is not on it: a rename between the two
+	// fails with EXDEV.
+	TmpOtherFS bool `json:"tmp_other_fs,omitempty"`
 }
 
 // C11Pre: Call selects one of the earlier operation's file-system calls (mod
@@ -150,6 +154,10 @@ func (x *c11ctx) setup(sim *core.Sim) (ok bool) {
 	plan := x.plan
 	disk := simfs.New()
 	disk.PutDir("/tmp")
+	if plan.TmpOtherFS && !simfs.Under("/tmp", x.root) {
+		disk.Mount("/tmp")
+		sim.Probe("temporary-directory-on-another-file-system")
+	}
 	simfs.Use(disk)
 	var msgs []*built
 	for _, d := range plan.Msgs {
@@ -962,6 +970,7 @@ func genC11(tier string, r *core.Rand, run int) C11Plan {
 			plan.Msgs[plan.Pre.M] = d
 		}
 	}
+	plan.TmpOtherFS = r.Chance(0.3)
 	plan.Sample = core.Tape(r, 48, func() int { return r.Intn(1 << 20) })
 	plan.ESample = core.Tape(r, 16, func() int { return r.Intn(1 << 20) })
 	return plan
